@@ -593,6 +593,75 @@ def untyped_values_stream(ctx, res):
                             dict(case, saved=repr(tree)[:300], reloaded=repr(back)[:300]))
 
 
+def text_shapes_stream(ctx, res):
+    """the length and the alphabet of a text are no part of whether it survives a save: (a) secrets of every UTF-8 length 0..49 bytes,
+    written in one-, two-, three- and four-byte characters (a block cipher has whole blocks at 16, 32 and 48 bytes), under every
+    method, at the root, in a section and in a list item; (b) plain strings that no codec can write as UTF-8 (a lone surrogate, as
+    os.fsdecode gives for a file name) in the formats that can carry them on the unchanged code (JSON, pickle)"""
+    import cincoconfig as cc
+    tmp = ctx.tmpdir()
+    keypath = os.path.join(tmp, "shapes.key")
+    with open(keypath, "wb") as fp:
+        fp.write(bytes(range(32)))
+    alphabets = [("ascii", "a"), ("cyrillic", "\u0436"), ("cjk", "\u6f22"), ("emoji", "\U0001f600")]
+    for method in ("best", "aes", "xor"):
+        item = cc.Schema()
+        item.secret = cc.SecureField(method=method)
+        s = cc.Schema()
+        s.secret = cc.SecureField(method=method)
+        s.sec.secret = cc.SecureField(method=method)
+        s.items = cc.ListField(item, default=lambda: [])
+        for name, ch in alphabets:
+            width = len(ch.encode("utf-8"))
+            for nbytes in range(width, 50):
+                text = ch * (nbytes // width) + "x" * (nbytes % width)
+                cfg = s(key_filename=keypath)
+                try:
+                    cfg.secret = text
+                    cfg.sec.secret = text[::-1]
+                    cfg.items = [{"secret": text}, {"secret": "p" + text}]
+                except Exception:  # noqa
+                    continue
+                want = [text, text[::-1], [text, "p" + text]]
+                for fmt in FORMATS:
+                    case = {"stream": "text-shapes", "method": method, "alphabet": name, "utf8_bytes": nbytes, "fmt": fmt}
+                    res.case(stable(case), kind="text-shapes:secret:" + fmt)
+                    fresh = s(key_filename=keypath)
+                    try:
+                        fresh.loads(cfg.dumps(format=fmt), format=fmt)
+                        got = [fresh.secret, fresh.sec.secret, [i.secret for i in fresh.items]]
+                    except Exception as e:  # noqa
+                        got = "raised %s: %s" % (type(e).__name__, str(e)[:80])
+                    if got != want:
+                        res.violate("C02:reload-differs:secret-length", "a secret does not come back from a save and reload with the same key file (the only thing special "
+                                    "about it is its length in bytes)", dict(case, got=repr(got)[:200], want=repr(want)[:200]))
+                        break
+    s = cc.Schema()
+    s.name = cc.StringField()
+    s.sub.path = cc.StringField()
+    s.names = cc.ListField(cc.StringField(), default=lambda: [])
+    s.any = cc.Field()
+    for text in ["caf\udce9.conf", "\udcff", "a\ud800b", "tail\udc80", "\x00nul", "\x7f\x1f", "\u2028line", "\ufeffbom", "\uffff"]:
+        cfg = s()
+        cfg.name = text
+        cfg.sub.path = text + "/x"
+        cfg.names = [text, "plain"]
+        cfg.any = {"k": [text]}
+        want = cfg.to_tree()
+        for fmt in ("json", "pickle"):
+            for opts in ({}, {"pretty": True}) if fmt == "json" else ({},):
+                case = {"stream": "text-shapes", "text": F.enc_val(text), "fmt": fmt, "options": opts}
+                res.case(stable(case), kind="text-shapes:text:" + fmt)
+                fresh = s()
+                try:
+                    fresh.loads(cfg.dumps(format=fmt, **opts), format=fmt)
+                    got = fresh.to_tree()
+                except Exception as e:  # noqa
+                    got = "raised %s: %s" % (type(e).__name__, str(e)[:80])
+                if got != want:
+                    res.violate("C02:reload-differs:text", "a string a string field accepts does not come back from a save and reload", dict(case, got=repr(got)[:200]))
+
+
 def equal_other_type_stream(ctx, res):
     """untyped fields that DECLARE a default, holding a value that is `==` the default but of another type (True / 1, 0 / False, 2 / 2.0,
     lists and maps of such): the saved value comes back, not the default it compares equal to — at the root, nested and in list items"""
@@ -652,6 +721,7 @@ def run(ctx, n_quick=400, n_thorough=6000):
     guard(res, "C02", keyfile_history_stream, ctx, res)
     guard(res, "C02", untyped_values_stream, ctx, res)
     guard(res, "C02", equal_other_type_stream, ctx, res)
+    guard(res, "C02", text_shapes_stream, ctx, res)
     P.run_stream(ctx, res, "C02", ctx.n(n_quick, n_thorough), oracle, gen_ops=gen_ops, ops_len=(3, 10),
                  schema_opts={"virtual": True}, label="save-reload")
     replies = ctx.model([r for _, _, r in PENDING])
